@@ -160,6 +160,45 @@ def forge_unknown_peer_connects(cfg, s, real_connect):
     return out
 
 
+def forge_keyless_connects(cfg, s, real_connect, addr):
+    """a server that demands credentials: CONNECTs from a third address whose PACKET signature is right (it involves only the access key
+    and the address-derived cookie, which anybody can compute) but whose login payload was made without any session key — missing,
+    garbage, or the sniffed genuine ticket with a request encrypted under another key — each followed by a DATA packet signed with
+    the empty session key. Nothing may be established for such a peer and nothing of it delivered."""
+    from nintendo.nex import prudp, kerberos, streams
+    import copy
+    enc = prudp.PRUDPMessageSelector(s).select(cfg.version)
+    out = []
+    payloads = [("missing", b""), ("garbage", bytes(range(40)))]
+    try:
+        st = streams.StreamIn(real_connect.payload, s)
+        ticket = st.buffer()
+        so = streams.StreamOut(s)
+        so.buffer(ticket)
+        so.buffer(kerberos.KerberosEncryption(bytes(16)).encrypt(bytes(s["nex.pid_size"] + 8)))
+        payloads.append(("sniffed-ticket", so.get()))
+    except Exception:
+        pass
+    cookie = enc.calc_connection_signature(addr)
+    for j, (name, payload) in enumerate(payloads):
+        q = copy.copy(real_connect)
+        q.payload = payload
+        q.session_id = 0x33
+        q.source_port = 14 - j           # one virtual port per attempt: each is an unknown peer
+        try:
+            q.signature = enc.calc_packet_signature(q, b"", cookie)
+            d = prudp.PRUDPPacket(2, 2 | 4 | 8)
+            d.version = q.version
+            d.source_type, d.source_port, d.dest_type, d.dest_port = q.source_type, q.source_port, q.dest_type, q.dest_port
+            d.session_id, d.packet_id, d.fragment_id, d.substream_id = 0x33, 2, 0, 0
+            d.payload = b"forged message"
+            d.signature = enc.calc_packet_signature(d, b"", cookie)
+            out.append((name, enc.encode(q), enc.encode(d)))
+        except Exception:
+            pass
+    return out
+
+
 def forge_acks(cfg, s, tx, session_key, real_p):
     """acknowledgements of `real_p` as its receiver would send them, but produced without one of the keys"""
     from nintendo.nex import prudp
@@ -354,6 +393,14 @@ def make_setup(cfg, mode, plan_filter, seed, allow=None):
                 if not cfg.credentials:
                     for name, fdata in forge_unknown_peer_connects(cfg, s, pk[0]):
                         inj(("10.0.0.77", 40077), tx.dst, fdata, 3 * D, ("forged", "unknown-peer-connect", 1, pk[0].flags, tx.n))
+                else:
+                    out._real_connect = pk[0]
+            if pk and cfg.credentials and getattr(out, "_real_connect", None) is not None and tx.dst == ps.SERVER and pk[0].type == 2 and not pk[0].flags & 1:
+                # (after the victim's handshake: a server-side connection object draws from the same recorded random sequence)
+                rc, out._real_connect = out._real_connect, None
+                for name, fconn, fdata in forge_keyless_connects(cfg, s, rc, ("10.0.0.78", 40078)):
+                    inj(("10.0.0.78", 40078), tx.dst, fconn, 3 * D, ("forged", "keyless-connect", 1, rc.flags, tx.n))
+                    inj(("10.0.0.78", 40078), tx.dst, fdata, 5 * D, ("forged", "keyless-connect", 2, 14, tx.n))
             if pk and not pk[0].flags & 1 and pk[0].flags & 2 and pk[0].type in (2, 3, 4) and getattr(out, "_neg", None) and rng.random() < 0.7:
                 for kind, atype, fdata in forge_cross_type_acks(cfg, s, tx, pk[0], out._neg):
                     inj(tx.dst, tx.src, fdata, rng.choice([EPS, 2 * D - EPS]), ("forged", kind, atype, 1, tx.n))
@@ -445,7 +492,7 @@ def strict(cfg, desc):
     control state (v0 signs data only) but must never make a payload appear"""
     if is_d18(desc):
         return False
-    if desc[0] == "forged" and desc[1] in ("unknown-peer-connect", "other-encoding"):
+    if desc[0] == "forged" and desc[1] in ("unknown-peer-connect", "other-encoding", "keyless-connect"):
         return True          # "in every encoding a handshake packet with a wrong signature establishes nothing"
     if cfg.version != 0:
         return True
@@ -545,6 +592,8 @@ def work(args):
                         break      # only a combination interferes
             culprit = [(i, descs.get(i)) for i in cand[:3]]
             bad.append(("interference", "injected datagram(s) %r changed the victim's behaviour: %s differs (reference %s / attacked %s)" % (culprit, diff[0], diff[1], diff[2])))
+        if att.extra_handlers and any(d[1] in ("keyless-connect", "unknown-peer-connect") for _, d in att.injections):
+            bad.append(("forged-connect-established", "a CONNECT made without any session key (valid packet signature, login payload missing / garbage / a sniffed ticket with a request under another key) established a connection at a server that demands credentials: the handler ran for %r" % (att.extra_handlers[:2],)))
         if att_d18.injections and first_diff(a, observe(att_d18)):
             bad.append(("KNOWN:multi-ack-skips-session-check", "a correctly signed aggregate ack with a wrong session id changed the victim's behaviour: %s" % (first_diff(a, observe(att_d18))[0],)))
         if cfg.version == 0:
